@@ -19,7 +19,7 @@ Kinds == {"absent", "text", "empty", "textparent", "parent", "parent2", "parente
 \* "nest" (block b1 of a child only): the override contains a definition of b2, which also calls parent()
 BaseKinds == {"text", "empty"}
 ExtKinds == {"absent", "text", "textparent", "parent"}
-Layouts == {"top", "nested", "loop", "if", "iffalse", "incl"}
+Layouts == {"apply", "spaceless", "top", "nested", "loop", "if", "iffalse", "incl"}
 
 \* marker of (level, block): a capital letter per level, digit per block
 Marker(lvl, b) == <<65 + lvl, IF b = "b1" THEN 49 ELSE 50>>
@@ -49,6 +49,11 @@ BaseBody(k, lay, k1, k2) ==
            <<BlockOf(k, "b2", k2), For1("i", Lit(VL(<<VI(1), VI(2)>>)), <<BlockOf(k, "b1", k1), Text(<<59>>)>>), Text(<<70>>)>>
       [] lay = "if" ->
            <<If1(LB(TRUE), <<BlockOf(k, "b1", k1)>>), Text(<<77>>), BlockOf(k, "b2", k2)>>
+      \* blocks inside an apply tag / a spaceless tag of the layout are blocks like any other
+      [] lay = "apply" ->
+           <<Text(<<72>>), Apply("upper", <<>>, <<Text(<<97>>), BlockOf(k, "b1", k1), Text(<<122>>)>>), Text(<<77>>), BlockOf(k, "b2", k2), Text(<<70>>)>>
+      [] lay = "spaceless" ->
+           <<Text(<<72>>), Spaceless(<<Text(<<60, 98, 62, 32>>), BlockOf(k, "b1", k1), Text(<<32, 60, 47, 98, 62>>)>>), Text(<<77>>), BlockOf(k, "b2", k2), Text(<<70>>)>>
       [] lay = "incl" ->
            \* the layout includes another inheritance chain (n1 extends n2) whose block names collide with its own
            <<Text(<<72>>), BlockOf(k, "b1", k1), Inc(LS(NT.n1)), Text(<<77>>), BlockOf(k, "b2", k2), Inc(LS(NT.n1)), Text(<<70>>)>>
@@ -76,6 +81,19 @@ ChildBodyExt(lvl, k1, k2, ext) ==
       [] ext = "afterset"    -> <<Set("zq", LI(1))>> \o x \o b1 \o junk \o b2
       [] ext = "afterimport" -> <<Import(LS(NT.n2), "L")>> \o x \o b1 \o b2 \o junk
 
+\* top-level assignments along a chain of three: the most derived template's come first, a less derived template's after them
+SetChains == {[n |-> 2, ch |-> <<<<"vars", "absent">>, <<"vars", "vars">>>>, bk |-> <<"vars0", "vars0">>, lay |-> "top", dyn |-> FALSE, glob |-> TRUE, sets |-> ss]
+                : ss \in [0..2 -> {"none", "gv", "both"}]}
+SetStmts(which, lvl) == CASE which = "gv" -> <<Set("gv", LS(<<115, 48 + lvl>>))>>
+                          [] which = "both" -> <<Set("gv", LS(<<115, 48 + lvl>>)), Set("nv", LI(lvl))>>
+                          [] OTHER -> <<>>
+\* two levels write the same relative parent name, which means another template at each level: p/q/x extends ../n1 (= p/n1),
+\* which extends ../n1 (= n1)
+RelChainTp == ("pqx" :> <<Extends(LS(<<46, 46, 47, 110, 49>>)), Block("b1", <<Text(<<88>>), PrintS(Call("parent", <<>>))>>)>>)
+              @@ ("pn1" :> <<Extends(LS(<<46, 46, 47, 110, 49>>)), Block("b1", <<Text(<<89>>), PrintS(Call("parent", <<>>))>>), Block("b2", <<Text(<<90>>)>>)>>)
+              @@ ("n1" :> <<Text(<<91>>), Block("b1", <<Text(<<66>>)>>), Text(<<124>>), Block("b2", <<Text(<<67>>)>>), Text(<<93>>)>>)
+\* the parent's name computed from two string literals
+ConcatParent == Bin("~", LS(<<116>>), LS(<<49>>))
 \* a chain description: kinds[l] = <<k1, k2>> for child levels 0..n-1, base kinds, layout, dyn
 ChildKindsFull == (Kinds \X Kinds) \cup {<<"nest", "absent">>}
 ChildKindsOne == (Kinds \cup {"nest"}) \X {"absent"}
@@ -87,6 +105,9 @@ Chains ==
               : ch \in [1..n -> ChildKindsOne], bk \in {<<"text", "text">>, <<"empty", "text">>}, lay \in Layouts, dyn \in {FALSE}}
             : n \in (MaxFull + 1)..MaxOne }
     \cup { [n |-> 1, ch |-> <<<<k1, "absent">>>>, bk |-> <<"text", "text">>, lay |-> "top", dyn |-> TRUE] : k1 \in Kinds }
+    \cup { [n |-> 1, ch |-> <<<<k1, "absent">>>>, bk |-> <<"text", "text">>, lay |-> "top", dyn |-> FALSE, concat |-> TRUE] : k1 \in {"text", "textparent", "parent"} }
+    \cup SetChains
+    \cup {[n |-> 0, ch |-> <<>>, bk |-> <<"text", "text">>, lay |-> "top", dyn |-> FALSE, rel |-> TRUE]}
     \* the extends tag of the most derived template in another place; engine globals that name a context variable
     \cup UNION { {[n |-> n, ch |-> ch, bk |-> <<"text", "text">>, lay |-> lay, dyn |-> FALSE, ext |-> ext]
                     : ch \in [1..n -> ExtKinds \X ExtKinds], lay \in {"top", "nested"}, ext \in ExtPlaces} : n \in 1..2 }
@@ -95,9 +116,13 @@ Chains ==
 
 IncTp == ("n1" :> <<Extends(LS(NT.n2)), Block("b1", <<Text(<<85>>), PrintS(Call("parent", <<>>))>>)>>)
          @@ ("n2" :> <<Text(<<91>>), Block("b1", <<Text(<<86>>)>>), Block("b2", <<Text(<<87>>)>>), Text(<<93>>)>>)
-Tp(c) == [name \in {TName(i) : i \in 0..c.n} |->
+Tp(c) == IF "rel" \in DOMAIN c THEN RelChainTp ELSE
+         [name \in {TName(i) : i \in 0..c.n} |->
             LET i == CHOOSE j \in 0..c.n : TName(j) = name IN
-            IF i = c.n THEN BaseBody(c.n, c.lay, c.bk[1], c.bk[2])
+            IF i = c.n THEN (IF "sets" \in DOMAIN c THEN SetStmts(c.sets[i], i) ELSE <<>>) \o BaseBody(c.n, c.lay, c.bk[1], c.bk[2])
+            ELSE IF "sets" \in DOMAIN c THEN <<Extends(LS(NT[TName(i + 1)]))>> \o SetStmts(c.sets[i], i)
+                                                \o <<BlockOf(i, "b1", c.ch[i + 1][1])>> \o (IF c.ch[i + 1][2] = "absent" THEN <<>> ELSE <<BlockOf(i, "b2", c.ch[i + 1][2])>>)
+            ELSE IF i = 0 /\ "concat" \in DOMAIN c THEN <<Extends(ConcatParent), BlockOf(0, "b1", c.ch[1][1])>>
             ELSE IF i = 0 /\ "ext" \in DOMAIN c THEN ChildBodyExt(i, c.ch[i + 1][1], c.ch[i + 1][2], c.ext)
             ELSE ChildBody(i, c.ch[i + 1][1], c.ch[i + 1][2], c.dyn /\ i = 0)]
          @@ (IF c.lay = "incl" \/ "ext" \in DOMAIN c THEN IncTp ELSE EmptyFn)
@@ -105,15 +130,17 @@ Tp(c) == [name \in {TName(i) : i \in 0..c.n} |->
 Globals(c) == IF "glob" \in DOMAIN c THEN ("gv" :> VS(<<71>>)) @@ ("go" :> VI(1)) ELSE EmptyFn
 Ctx(c) == IF c.dyn THEN ("pv" :> VS(NT.t1)) ELSE IF "glob" \in DOMAIN c THEN ("gv" :> VS(<<99>>)) @@ ("nv" :> Null) ELSE EmptyFn
 World(c) == WithGlobals(MkW(Tp(c), {}, {}, NoFault), Globals(c))
-Ref(c) == Render(World(c), "t0", Ctx(c))
+EntryOf(c) == IF "rel" \in DOMAIN c THEN "pqx" ELSE "t0"
+Ref(c) == Render(World(c), EntryOf(c), Ctx(c))
 
 KindTags(c) == UNION {{"b1:" \o c.ch[i][1], "b2:" \o c.ch[i][2]} : i \in 1..c.n}
 CaseOf(c) ==
     LET ref == Ref(c) IN
     [prop |-> "C10", key |-> ToJson(c),
      tags |-> {"lay:" \o c.lay, "chain:" \o ToString(c.n), "base1:" \o c.bk[1], "base2:" \o c.bk[2]} \cup KindTags(c)
-              \cup (IF c.dyn THEN {"dynparent"} ELSE {}) \cup (IF "ext" \in DOMAIN c THEN {"ext:" \o c.ext} ELSE {}) \cup (IF "glob" \in DOMAIN c THEN {"globals"} ELSE {}),
-     entry |-> "t0", ctx |-> Ctx(c), cfg |-> [globals |-> Globals(c)],
+              \cup (IF c.dyn THEN {"dynparent"} ELSE {}) \cup (IF "sets" \in DOMAIN c THEN {"sets"} ELSE {}) \cup (IF "rel" \in DOMAIN c THEN {"relchain"} ELSE {})
+              \cup (IF "concat" \in DOMAIN c THEN {"concatparent"} ELSE {}) \cup (IF "ext" \in DOMAIN c THEN {"ext:" \o c.ext} ELSE {}) \cup (IF "glob" \in DOMAIN c THEN {"globals"} ELSE {}),
+     entry |-> EntryOf(c), ctx |-> Ctx(c), cfg |-> [globals |-> Globals(c)],
      runs |-> {[label |-> "render", tp |-> Sources(Tp(c), LMin), xcalls |-> [id \in {} |-> 0]]},
      expect |-> [ok |-> ref.ok, out |-> ref.out, err |-> ref.err, calls |-> [id \in {} |-> 0]]]
 
@@ -124,6 +151,6 @@ Emit == PrintT(ToJson(CaseOf(cs)))
 
 \* model-level sanity: a chain in which no child defines anything renders the base alone
 NoOverrideIsBase ==
-    (\A i \in 1..cs.n : cs.ch[i] = <<"absent", "absent">>) =>
+    ("rel" \notin DOMAIN cs /\ "sets" \notin DOMAIN cs /\ \A i \in 1..cs.n : cs.ch[i] = <<"absent", "absent">>) =>
         Ref(cs).out = Render(MkW(("t0" :> BaseBody(cs.n, cs.lay, cs.bk[1], cs.bk[2])) @@ (IF cs.lay = "incl" THEN IncTp ELSE EmptyFn), {}, {}, NoFault), "t0", Ctx(cs)).out
 =============================================================================
